@@ -445,6 +445,14 @@ class SimTLS(object):
         self.world.rec('pending', self.sid, len(self.plain))
         return len(self.plain)
 
+    # so that a TLS layer can sit on top of another one (wss through an https proxy)
+    @property
+    def timeout(self):
+        return self.sock.timeout
+
+    def _recv(self, count, blocking_timeout):
+        return self.recv(count)
+
     def _record_size(self):
         r = self.world.tls_records
         if r is None:
